@@ -12,6 +12,7 @@ import (
 	"net"
 	"os"
 	"path/filepath"
+	"runtime"
 	"slices"
 	"sort"
 	"strings"
@@ -34,6 +35,8 @@ type loginClient struct {
 	g     *group.Group
 	user  string
 	perms []string
+	// streams announced to this member (PushConn with a connection)
+	announced []string
 }
 
 func (c *loginClient) Group() *group.Group {
@@ -60,7 +63,32 @@ func (c *loginClient) Permissions() []string {
 }
 func (c *loginClient) Data() map[string]interface{} { return nil }
 func (c *loginClient) PushConn(g *group.Group, id string, up conn.Up, tracks []conn.UpTrack, replace string) error {
+	if up != nil {
+		c.mu.Lock()
+		c.announced = append(c.announced, id)
+		c.mu.Unlock()
+	}
 	return nil
+}
+
+func (c *loginClient) announcements() int {
+	c.mu.Lock()
+	defer c.mu.Unlock()
+	return len(c.announced)
+}
+
+// waitPushTimers returns when no delayed stream announcement (galene's 200 ms pushConn timer) is pending: the
+// goroutine dump is the clock.
+func waitPushTimers() {
+	buf := make([]byte, 4<<20)
+	for i := 0; i < 2000; i++ {
+		n := runtime.Stack(buf, true)
+		if !strings.Contains(string(buf[:n]), "created by github.com/jech/galene/rtpconn.pushConn ") {
+			return
+		}
+		time.Sleep(5 * time.Millisecond)
+	}
+	panic("VERIF-HARNESS-ERROR: pushConn timers never fired")
 }
 func (c *loginClient) RequestConns(target group.Client, g *group.Group, id string) error { return nil }
 func (c *loginClient) Joined(grp, kind string) error                                     { return nil }
